@@ -137,9 +137,10 @@ func input4(rng *rand.Rand) *dhcpv4.DHCPv4 {
 			}
 		}
 	}
-	put(82, randBytes(rng, 2+rng.Intn(8)))
-	put(61, randBytes(rng, 1+rng.Intn(8)))
-	put(54, randBytes(rng, 4))
+	// values of every size class: a decoded packet concatenates split options, so echoed values can exceed 255 bytes
+	put(82, randBytes(rng, pick(rng, 2+rng.Intn(8), 2+rng.Intn(8), 255, 256, 257, 300+rng.Intn(400))))
+	put(61, randBytes(rng, pick(rng, 1+rng.Intn(8), 1+rng.Intn(8), 1+rng.Intn(8), 255, 256, 511)))
+	put(54, randBytes(rng, pick(rng, 4, 4, 4, 4, 260)))
 	put(55, randBytes(rng, 1+rng.Intn(5)))
 	put(53, []byte{byte(1 + rng.Intn(8))})
 	if rng.Intn(2) == 0 { // as received: through the wire (empty values become nil)
